@@ -7,6 +7,7 @@
 #include <exception>
 #include <fstream>
 #include <iostream>
+#include <sys/syscall.h>
 #include <sys/time.h>
 #include <unistd.h>
 
@@ -151,13 +152,21 @@ void abnormal_dump(char const *kind)
   write_stats();
 }
 
+// _exit is intercepted by ThreadSanitizer (it takes the thread-registry lock, which the reporting
+// thread may already hold): leave through the raw system call instead
+[[noreturn]] void hard_exit(int code)
+{
+  syscall(SYS_exit_group, code);
+  for (;;) {}
+}
+
 void death_cb() { abnormal_dump("sanitizer"); }
 
 void on_abort(int)
 {
   abnormal_dump("abort");
   std::signal(SIGABRT, SIG_DFL);
-  _exit(134);
+  hard_exit(134);
 }
 
 std::atomic<u64> g_last_evals{0};
@@ -173,7 +182,7 @@ void on_tick(int)
     if (++g_stall >= g_stall_limit)
     {
       abnormal_dump("hang");
-      _exit(124);
+      hard_exit(124);
     }
   }
   else
@@ -199,7 +208,7 @@ void on_terminate()
     G.abnormal_what = "non-std exception";
   }
   abnormal_dump("terminate");
-  _exit(135);
+  hard_exit(135);
 }
 }
 
